@@ -148,7 +148,7 @@ func firstLines(s string, n int) string {
 }
 
 func c17Config(r interface{ IntN(int) int }) gen.Config {
-	return gen.Config{Primary: gen.MH, Bits: []uint8{8, 9, 12}[r.IntN(3)], IndexFileSize: []uint32{40, 100, 300}[r.IntN(3)], PrimaryFileSize: []uint32{40, 100, 300}[r.IntN(3)], FileCache: []int{0, 2, 512}[r.IntN(4) % 3]}
+	return gen.Config{Primary: gen.MH, Bits: []uint8{8, 9, 12}[r.IntN(3)], IndexFileSize: []uint32{40, 100, 300}[r.IntN(3)], PrimaryFileSize: []uint32{40, 100, 300}[r.IntN(3)], FileCache: []int{0, 2, 512}[r.IntN(4)%3]}
 }
 
 func runC17(c run.Ctx) *core.CaseResult {
